@@ -1006,6 +1006,126 @@ fn parse_files0_args(config: &mut Config) -> Result<(), Box<dyn Error>> {
     Ok(())
 }
 
+/// Entry points for out-of-tree verification harnesses. Nothing here is
+/// reachable unless the crate is built with `--features verif-hooks`.
+#[cfg(feature = "verif-hooks")]
+pub mod verif_hooks {
+    use super::*;
+
+    fn parts(c: &ComparableValue) -> (char, u64) {
+        match *c {
+            ComparableValue::MoreThan(n) => ('+', n),
+            ComparableValue::EqualTo(n) => ('=', n),
+            ComparableValue::LessThan(n) => ('-', n),
+        }
+    }
+
+    fn unparts(kind: char, n: u64) -> ComparableValue {
+        match kind {
+            '+' => ComparableValue::MoreThan(n),
+            '-' => ComparableValue::LessThan(n),
+            _ => ComparableValue::EqualTo(n),
+        }
+    }
+
+    /// Operand of a numeric test: ('+' | '=' | '-', N), or None if rejected.
+    pub fn cmp_parse(s: &str) -> Option<(char, u64)> {
+        convert_arg_to_comparable_value("-hook", s)
+            .ok()
+            .map(|c| parts(&c))
+    }
+
+    /// Operand of `-size`: comparison, N and the unit suffix text.
+    pub fn cmp_parse_suffix(s: &str) -> Option<(char, u64, String)> {
+        convert_arg_to_comparable_value_and_suffix("-hook", s)
+            .ok()
+            .map(|(c, suffix)| {
+                let (k, n) = parts(&c);
+                (k, n, suffix)
+            })
+    }
+
+    pub fn cmp_matches(kind: char, limit: u64, value: u64) -> bool {
+        unparts(kind, limit).matches(value)
+    }
+
+    pub fn cmp_imatches(kind: char, limit: u64, value: i64) -> bool {
+        unparts(kind, limit).imatches(value)
+    }
+
+    pub fn arg_number(s: &str) -> Option<usize> {
+        convert_arg_to_number("-hook", s).ok()
+    }
+
+    pub fn unit_size(suffix: &str, byte_size: u64) -> Option<u64> {
+        size::verif_unit_size(suffix, byte_size)
+    }
+
+    /// Whether `-size OPERAND` as a whole is accepted.
+    pub fn size_operand_ok(s: &str) -> bool {
+        convert_arg_to_comparable_value_and_suffix("-size", s)
+            .and_then(|(c, suffix)| SizeMatcher::new(c, &suffix))
+            .is_ok()
+    }
+
+    pub fn newer_args(s: &str) -> Option<(String, String)> {
+        parse_str_to_newer_args(s)
+    }
+
+    pub fn date_millis(s: &str) -> Option<i64> {
+        parse_date_str_to_timestamps(s)
+    }
+
+    pub fn glob_regex(pattern: &str) -> Option<String> {
+        glob::verif_glob_regex(pattern)
+    }
+
+    pub fn glob_matches(pattern: &str, caseless: bool, subject: &str) -> bool {
+        glob::Pattern::new(pattern, caseless).matches(subject)
+    }
+
+    /// `-regex`/`-iregex` against a path text; Err if the pattern is rejected.
+    pub fn regex_matches(
+        regex_type: &str,
+        pattern: &str,
+        ignore_case: bool,
+        subject: &str,
+    ) -> Result<bool, String> {
+        let ty = regex::RegexType::from_str(regex_type).map_err(|e| e.to_string())?;
+        let m = RegexMatcher::new(ty, pattern, ignore_case).map_err(|e| e.to_string())?;
+        let entry = WalkEntry::new(subject, 0, Follow::Never);
+        struct NoDeps(std::cell::RefCell<Vec<u8>>);
+        impl Dependencies for NoDeps {
+            fn get_output(&self) -> &std::cell::RefCell<dyn std::io::Write> {
+                &self.0
+            }
+            fn now(&self) -> SystemTime {
+                SystemTime::UNIX_EPOCH
+            }
+        }
+        let deps = NoDeps(std::cell::RefCell::new(vec![]));
+        Ok(m.matches(&entry, &mut MatcherIO::new(&deps)))
+    }
+
+    #[cfg(unix)]
+    pub fn perm_parse(pattern: &str) -> Result<(u8, u32, u32), String> {
+        PermMatcher::new(pattern)
+            .map(|m| m.verif_parts())
+            .map_err(|e| e.to_string())
+    }
+
+    #[cfg(unix)]
+    pub fn perm_matches(pattern: &str, is_dir: bool, mode: u32) -> Result<bool, String> {
+        PermMatcher::new(pattern)
+            .map(|m| m.verif_mode_matches(is_dir, mode))
+            .map_err(|e| e.to_string())
+    }
+
+    pub fn printf_parse(format: &str) -> Result<Vec<String>, String> {
+        printf::verif_parse(format)
+    }
+}
+
 #[cfg(test)]
 mod tests {
     use super::*;
